@@ -157,14 +157,14 @@ example (L : Lib) : evalMessage L (.unexpectedOperation (.ptrTo (utf8 "parser.Ab
   evaluation failure the model's own outcome for the same input is stated beside it: `.err [e.cat]`.
 
   `goLib` supplies the three library facts the examples touch: `strconv.IsPrint(U+2028) = false`,
-  `Decimal.String()` of NaN / -Inf / 1.5, and `chan int` as the type of the foreign value used. -/
+  `Decimal.String()` of NaN / -Inf / +Inf / 1.5, and `chan int` as the type of the foreign value used. -/
 
 def goLib : Lib where
   isPrintHigh := fun _ => false
   decString := fun d => match d with
     | .nan => utf8 "NaN"
     | .inf true => utf8 "-Inf"
-    | .inf false => utf8 "Inf"
+    | .inf false => utf8 "+Inf"
     | d => (Dec.marshalJSON d).getD []
   foreignTypeStr := fun _ => utf8 "chan int"
 
@@ -211,10 +211,12 @@ example : evalMessage goLib (.integerConversion .nan)
       = .ok (utf8 "jmespath: error converting value to integer: NaN") ∧
     evalMessage goLib (.integerConversion (.inf true))
       = .ok (utf8 "jmespath: error converting value to integer: -Inf") ∧
+    evalMessage goLib (.integerConversion (.inf false))
+      = .ok (utf8 "jmespath: error converting value to integer: +Inf") ∧
     evalMessage goLib (.integerConversion (.fin false 15 (-1)))
       = .ok (utf8 "jmespath: error converting value to integer: 1.5") ∧
     evaluate (.call .padSpaceLeft [.lit (.str [0x61]), .current]) (.num (.dec .nan)) = .err [Cat.invalidValue] :=
-  ⟨rfl, rfl, rfl, rfl⟩
+  ⟨rfl, rfl, rfl, rfl, rfl⟩
 /-- ``pad_left('a', `-3`)`` -/
 example (L : Lib) : evalMessage L (.negativeInteger (-3))
       = .ok (utf8 "jmespath: negative integer -3 where positive integer required") ∧
